@@ -98,15 +98,15 @@ type base struct {
 // ---------------------------------------------------------------- cases
 
 const (
-	clTrunc     = iota // ReadWallet on file[:a]
-	clCorrupt          // ReadWallet on file with file[a]=b
-	clKeyFlip          // ReadWallet with key bit a flipped
-	clWrongKey         // ReadWallet with unrelated key a
-	clDecTight         // Decrypt(key, file[:a:a])
-	clDecLoose         // Decrypt(key, file[:a]) (spare capacity behind the prefix)
-	clRoundGOB         // SaveWallet -> ReadWallet, same key
-	clRoundPEM         // SaveToPem -> ReadFromPem
-	clDecFull          // Decrypt(key, file) -> DecodeGOBWallet
+	clTrunc    = iota // ReadWallet on file[:a]
+	clCorrupt         // ReadWallet on file with file[a]=b
+	clKeyFlip         // ReadWallet with key bit a flipped
+	clWrongKey        // ReadWallet with unrelated key a
+	clDecTight        // Decrypt(key, file[:a:a])
+	clDecLoose        // Decrypt(key, file[:a]) (spare capacity behind the prefix)
+	clRoundGOB        // SaveWallet -> ReadWallet, same key
+	clRoundPEM        // SaveToPem -> ReadFromPem
+	clDecFull         // Decrypt(key, file) -> DecodeGOBWallet
 	numClasses
 )
 
@@ -368,6 +368,16 @@ func replay(path string) int {
 		fmt.Fprintln(os.Stderr, err)
 		return 2
 	}
+	var hv struct {
+		Witness map[string]any `json:"witness"`
+	}
+	if err := json.Unmarshal(b, &hv); err == nil && hv.Witness["mode"] == "history" {
+		rc := replayHistory(hv.Witness)
+		if rc == 1 {
+			fmt.Printf("VIOLATION property=C20 replay=%s\n", path)
+		}
+		return rc
+	}
 	var v struct {
 		Key     string  `json:"key"`
 		Witness witness `json:"witness"`
@@ -411,7 +421,7 @@ func main() {
 	if len(args) > 0 && args[0] == "C20" {
 		args = args[1:]
 	}
-	if len(args) >= 2 && (args[0] == "--replay" || args[0] == "replay") {
+	if len(args) >= 2 && (args[0] == "--replay" || args[0] == "-replay" || args[0] == "replay") {
 		os.Exit(replay(args[1]))
 	}
 	os.Exit(run())
@@ -662,6 +672,20 @@ func run() int {
 	}
 	evaluations += int64(executed)
 
+	// ---- 4. files with a past (an earlier wallet saved to the same path)
+	hf, hreads, hpairs, houtcomes, herr := runHistories(dir, thorough, wrong)
+	if herr != nil {
+		fmt.Fprintln(os.Stderr, "history phase: SaveWallet failed on a legal wallet/key:", herr)
+		return 2
+	}
+	evaluations += int64(hreads)
+	for _, f := range hf {
+		addViol(10000000+f.idx, f.v)
+	}
+	rep.Set("history_pairs", hpairs)
+	rep.Set("history_reads", hreads)
+	rep.Set("history_outcomes", houtcomes)
+
 	sort.SliceStable(pending, func(i, j int) bool { return pending[i].idx < pending[j].idx })
 	for _, p := range pending {
 		rep.Add(p.v)
@@ -698,6 +722,9 @@ func run() int {
 		"evaluations = ReadWallet/ReadFromPem/Decrypt calls made. A case is DISTINCT by sha256(key || data) of the faulty input (so the Decrypt prefixes, which repeat the "+
 		"truncation inputs, add nothing) and NON-TRIVIAL when the faulty data still holds a whole 12-byte nonce and a whole 16-byte tag AND the read demonstrably got past "+
 		"the length/key guards into AES-GCM authentication (it returned an error wrapping aeswrapper.ErrOpenDataFailure, or a wallet); shorter inputs, panics and other errors are trivial. "+
+		"History phase: per wallet, 5 pasts of the path (another wallet saved earlier with the same key, 16 and 32 bytes; with another key, 16 and 32 bytes; the same wallet saved earlier with a key of the other length), "+
+		"each followed by the real second SaveWallet; the directory as SaveWallet left it is restored before every read; every truncation, two (thorough: five) values per byte position, the earlier key, 8 unrelated keys and every 7th key bit flip; "+
+		"the answer must be the wallet saved last or an error. "+
 		"exhaustive=true means every planned case of this alphabet was executed before the internal deadline.")
 	rep.Assume("AES-GCM (crypto/aes, crypto/cipher) is trusted: a forged tag is accepted with probability 2^-128, so 'error for every altered byte' is decided for these six nonces and generalises to other nonces only through that argument")
 	rep.Assume("the nonce drawn by aeswrapper.Encrypt from crypto/rand is not controlled; the saved bytes are recorded in every witness so a counterexample replays bit-exactly")
